@@ -2,7 +2,8 @@
 (***************************************************************************)
 (* LexerHandover as a state machine: one step = one pass of the            *)
 (* parse_template loop (Django pass + at most one hand-over).  Initial     *)
-(* states: every source of at most MaxSegs atoms.                          *)
+(* states: every source of at most MaxSegs atoms of AtomSet, at most       *)
+(* FocusSegs atoms of FocusSet, at most 2 atoms of PairSet.                *)
 (*                                                                         *)
 (*   Devs = {}            : OffsetInv, ResumeInv and Refines must hold     *)
 (*   Devs = {one defect}  : TLC must find a counterexample; the harness    *)
@@ -10,11 +11,13 @@
 (***************************************************************************)
 EXTENDS LexerAtoms, LexerHandover, TLC
 
-CONSTANTS MaxSegs, AtomSet, Devs, ML
+CONSTANTS MaxSegs, AtomSet, FocusSegs, FocusSet, PairSet, Devs, ML
 VARIABLES hids, hst
 hvars == <<hids, hst>>
 
 Sources == UNION {[1..n -> AtomSet] : n \in 0..MaxSegs}
+           \cup UNION {[1..n -> FocusSet] : n \in 0..FocusSegs}
+           \cup UNION {[1..n -> PairSet] : n \in 0..2}
 Admissible(ids) == /\ \A i \in 1..(Len(ids) - 1) : ~IsLast(ids[i])
                    /\ ~Zone(Src(ids))
 
